@@ -19,7 +19,8 @@ What is read (with `inspect` + `ast`; record types in lean/PV/Model/CacheTable.l
     `get_cache_key`, `rec_fallback`, `__init__`, `map_common_subexpression`,
     `map_common_subexpression_uncached`) its BODY defines and the function each is bound to;
     whether `__init__` reaches `CachedMapper.__init__`; `__call__` overrides that hand over to
-    another class;
+    another class (is the instance passed, which defaulted parameters are inserted, is everything
+    forwarded);
   * the optimizer: option names, the per-method rewriting loop of `optimize_mapper` (which
     transformer class, with which options, under which condition, in which order); each LIVE
     transformer class (`_VarArgsRemover`, `_CacheKeyInliner`, `_RecInliner`) run on every dispatch
@@ -510,17 +511,43 @@ def init_reaches(cls, target):
 
 
 def read_call_override(cls, owner):
-    """`def __call__(self, …): return Target.__call__(…)`"""
+    """`def __call__(self, expr, P=DEFAULT, …, *args, **kwargs): return Target.__call__(…)`"""
     what = f"{owner.__name__}.__call__"
-    node = _fn_ast(owner.__dict__["__call__"], what)
+    fn = owner.__dict__["__call__"]
+    node = _fn_ast(fn, what)
+    a = node.args
+    names = [x.arg for x in a.args]
+    if (names[:2] != ["self", "expr"] or a.kwonlyargs or a.posonlyargs
+            or len(a.defaults) != len(names) - 2
+            or (a.vararg is not None and a.vararg.arg != "args")
+            or (a.kwarg is not None and a.kwarg.arg != "kwargs")):
+        raise ExtractError(f"{what}: signature is not (self, expr, P=DEFAULT…[, *args][, **kwargs]): "
+                           f"({ast.unparse(a)})")
+    extra = [(n, ast.unparse(d)) for n, d in zip(names[2:], a.defaults)]
     body = _body(node)
     if not (len(body) == 1 and isinstance(body[0], ast.Return) and isinstance(body[0].value, ast.Call)
             and isinstance(body[0].value.func, ast.Attribute)
-            and body[0].value.func.attr == "__call__" and _name(body[0].value.func.value)):
+            and body[0].value.func.attr == "__call__"):
         raise ExtractError(f"{what}: an override that is not `return Target.__call__(…)`")
     call = body[0].value
-    return dict(cls=class_id(owner), target=call.func.value.id,
-                passesSelf=bool(call.args and _name(call.args[0], "self")))
+    target = _eval_base(call.func.value, fn.__globals__, what)
+    if not isinstance(target, type):
+        raise ExtractError(f"{what}: `{ast.unparse(call.func.value)}` is not a class")
+    pos = list(call.args)
+    passes_self = bool(pos and _name(pos[0], "self"))
+    if passes_self:
+        pos = pos[1:]
+    want = ["expr", *[n for n, _ in extra]]
+    plain = pos[:len(want)]
+    rest = pos[len(want):]
+    fwd = (len(plain) == len(want) and all(_name(x, n) for x, n in zip(plain, want))
+           and len(rest) == (1 if a.vararg is not None else 0)
+           and all(isinstance(x, ast.Starred) and _name(x.value, "args") for x in rest)
+           and len(call.keywords) == (1 if a.kwarg is not None else 0)
+           and all(k.arg is None and _name(k.value, "kwargs") for k in call.keywords))
+    return dict(cls=class_id(owner), fn=fn_ident(fn), target=ast.unparse(call.func.value),
+                targetFn=fn_ident(getattr(target, "__call__")), passesSelf=passes_self,
+                extra=extra, forwardsAll=bool(fwd))
 
 
 def class_tables(pm):
@@ -1107,7 +1134,10 @@ def render(t):
                + ",\n".join("  ⟨" + q(n) + ", [" + ", ".join(f"({q(a)}, {q(f)})" for a, f in attrs) + "]⟩"
                             for n, attrs in t["defines"]) + "\n]\n")
     out.append("def c05CallOverrides : List C05CallOverride := ["
-               + ", ".join(f"⟨{q(o['cls'])}, {q(o['target'])}, {lb(o['passesSelf'])}⟩"
+               + ", ".join(f"⟨{q(o['cls'])}, {q(o['fn'])}, {q(o['target'])}, {q(o['targetFn'])}, "
+                           f"{lb(o['passesSelf'])}, ["
+                           + ", ".join(f"({q(n)}, {q(d)})" for n, d in o["extra"])
+                           + f"], {lb(o['forwardsAll'])}⟩"
                            for o in t["overrides"]) + "]\n")
     out.append("/-- the boolean options of `optimize_mapper` with their defaults -/\n"
                "def c05OptOptions : List (String × Bool) := ["
